@@ -233,7 +233,8 @@ Section Shape.
               w_hold l = true /\ ~ In r (s_pl a) /\ r < g_nrec g /\
               forall t0, w_my (s_v a t0) = Some r -> w_own (s_v a t0) = OUnk /\ stt g r = st_active;
     k_cand : forall r, w_cand l = Some r -> unowned a r /\ r < g_nrec g /\ r <> head;
-    k_vic : forall r, w_vic l = Some r -> unowned a r /\ r < g_nrec g /\ r <> head /\ ~ In r (s_pl a) }.
+    k_vic : forall r, w_vic l = Some r -> unowned a r /\ r < g_nrec g /\ r <> head /\ ~ In r (s_pl a);
+    k_tgt : forall v, w_tgt l = Some v -> w_my l = Some v \/ unowned a v }.
 
   Definition Inv (g : G) (a : aux) (tr : list (nat * ev)) : Prop :=
     has_lost tr = false /\ Glob g a /\ forall t, Know g a (s_v a t).
@@ -278,6 +279,7 @@ Section Shape.
       intros t0 Ht0. destruct (Hr r) as (_ & E & _). rewrite E. auto.
     - intros r Hc. rewrite En. auto.
     - intros r Hc. rewrite En. auto.
+    - auto.
   Qed.
 
   Lemma Know_ext g g' a l : same_shape g g' -> Know g a l -> Know g' a l.
@@ -311,6 +313,7 @@ Section Shape.
       rewrite Eo. apply D. rewrite <- E1. congruence.
     - intros r Hc. destruct (k_cand0 r Hc) as (A & B). split; auto. apply unowned_setv; auto.
     - intros r Hc. destruct (k_vic0 r Hc) as (A & B). split; auto. apply unowned_setv; auto.
+    - intros v Hc. destruct (k_tgt0 v Hc) as [A|A]; [left; exact A|right; apply unowned_setv; auto].
   Qed.
 
   Lemma Glob_setv g a t l' :
@@ -511,6 +514,7 @@ Section Shape.
         exfalso. apply E. eapply (gl_inj HG); eauto.
     - intros x Hc. destruct (k_cand0 x Hc) as (A & B). rewrite En. split; auto.
     - intros x Hc. destruct (k_vic0 x Hc) as (A & B). rewrite En. split; auto.
+    - intros v Hc. destruct (k_tgt0 v Hc) as [A|A]; auto.
   Qed.
 
   (** [t] holds the combiner lock and unlinks / deactivates / answers / frees *)
@@ -550,6 +554,7 @@ Section Shape.
     - intros r0 Hd. destruct (k_deact0 r0 Hd) as (A & _). congruence.
     - intros x Hc. destruct (k_cand0 x Hc) as (A & B). rewrite En. split; [apply Hun; exact A|exact B].
     - intros x Hc. destruct (k_vic0 x Hc) as (A & B & D & E). rewrite En. split; [apply Hun; exact A|]. repeat split; auto.
+    - intros v Hc. destruct (k_tgt0 v Hc) as [A|A]; [left; exact A|right; apply Hun; exact A].
   Qed.
   (** *** one field of one record *)
   Lemma upd_fields (g : G) r f v x :
@@ -616,7 +621,6 @@ Section Shape.
         * intros (u' & Hd) _. destruct (Hf r) as (_ & B & _). split; [|exact B].
           destruct (k_deact (HK u') Hd) as (_ & _ & _ & D). destruct (D t Hm0) as [D1 _]. rewrite Hv in D1. exact D1.
   Qed.
-(* ==DEV== *)
   (** *** generic step: thread [t] writes fields of its own record [r] *)
   Lemma own_step g g' a tr t l l' r es :
     Inv g a tr -> s_v a t = l -> w_my l = Some r -> (w_my l' = Some r \/ w_my l' = None) ->
@@ -662,9 +666,9 @@ Section Shape.
         assert (Hd' : forall u, w_deact (s_v a u) = Some x -> exists u0, w_deact (s_v (setv a t l') u0) = Some x).
         { intros u Hu. exists u. cbn. unfold upd. destruct (Nat.eqb_spec u t) as [E|E]; [rewrite Ed, <- Hv, <- E|]; exact Hu. }
         destruct (Nat.eq_dec x r) as [->|Hne].
-        + destruct (O2 Hs) as [A|[[A B]|(u & A)]]; auto.
+        + destruct (O2 Hs) as [A|[[A B]|(u & A)]]; [auto| |right; right; eauto].
           right. left. exists t. cbn. rewrite upd_same. auto.
-        + rewrite (Hxs x Hne) in Hs. destruct (gl_act0 x Hs) as [A|[(u & A & B)|(u & A)]]; auto.
+        + rewrite (Hxs x Hne) in Hs. destruct (gl_act0 x Hs) as [A|[(u & A & B)|(u & A)]]; [auto| |right; right; eauto].
           right. left. exists u. cbn. unfold upd. destruct (Nat.eqb_spec u t) as [E|E]; [|auto]. subst u. congruence.
       - intros x Hs. destruct (Nat.eq_dec x r) as [->|Hne].
         + pose proof (O3 Hs) as E0. intros v. cbn. unfold upd. destruct (Nat.eqb_spec v t) as [E|E]; [rewrite E0; discriminate|].
@@ -676,5 +680,295 @@ Section Shape.
     apply Inv_intro; [apply nolost_tag; assumption|exact HG'|].
     intros u. cbn. unfold upd. destruct (Nat.eqb_spec u t) as [E|E]; [apply Hkt; exact HG'|].
     exact (@Know_own_write g g' a t r l' u HG HK E Hm0 Hm' En Hx Hnx Hown).
+  Qed.
+  Ltac own_fields g r f v :=
+    let H := fresh "Hf" in
+    assert (H : forall x, nxt (upd_rec g r (set_fld (g_recs g r) f v)) x = (if Nat.eqb x r then match f with FNext => v | _ => nxt g x end else nxt g x) /\
+                          stt (upd_rec g r (set_fld (g_recs g r) f v)) x = (if Nat.eqb x r then match f with FState => v | _ => stt g x end else stt g x) /\
+                          rq (upd_rec g r (set_fld (g_recs g r) f v)) x = (if Nat.eqb x r then match f with FReq => v | _ => rq g x end else rq g x))
+      by (intros ?x; apply upd_fields).
+
+  (** Know for the stepping thread when only fields of its own record [r] changed *)
+  Lemma Know_t_own g g' a t l l' r :
+    Know g a l -> w_my l = Some r -> g_nrec g' = g_nrec g ->
+    w_my l' = w_my l -> w_hold l' = w_hold l -> w_link l' = w_link l -> w_cur l' = w_cur l -> w_tgt l' = w_tgt l ->
+    w_pp l' = w_pp l -> w_nx l' = w_nx l -> w_deact l' = w_deact l -> w_cand l' = w_cand l -> w_vic l' = w_vic l ->
+    (forall x, x <> r -> nxt g' x = nxt g x /\ stt g' x = stt g x) ->
+    (nxt g' r <> nxt g r -> ~ In r (s_pl a)) ->
+    (w_link l = true -> stt g' r = stt g r) ->
+    (w_deact l = Some r -> stt g' r = stt g r /\ w_own l' = w_own l) ->
+    (w_own l' <> OUnk -> ~ In r (s_pl a)) ->
+    (w_own l' = OPub -> stt g' r = st_active) ->
+    (forall p, w_mynx l' = Some p -> w_own l' <> OUnk -> nxt g' r = p) ->
+    (w_wait l' = true -> rq g' r <> req_Empty) ->
+    (w_done l' = true -> rq g' r = req_Response) ->
+    s_v a t = l ->
+    Know g' (setv a t l') l'.
+  Proof.
+    intros K Hm En Em Eh Ek Ec Et Ep Enx Ed Eca Evi Hx Hnx Hlk Hde Hunl Hpub Hmynx Hwait Hdone Hv. destruct K.
+    assert (Hun : forall x, unowned a x <-> unowned (setv a t l') x).
+    { intros x. unfold unowned; cbn. split; intros H v; specialize (H v); unfold upd in *;
+        (destruct (Nat.eqb_spec v t) as [E|E]; [rewrite E in *|]); congruence. }
+    split; cbn [s_pl setv]; fold (LL a).
+    - intros r0 H0. rewrite En. apply k_my0. congruence.
+    - intros Ho r0 H0. assert (r0 = r) by congruence. subst r0. auto.
+    - intros Ho r0 H0. assert (r0 = r) by congruence. subst r0. auto.
+    - intros p Hp Ho r0 H0. assert (r0 = r) by congruence. subst r0. auto.
+    - intros Hw r0 H0. assert (r0 = r) by congruence. subst r0. auto.
+    - intros Hw r0 H0. assert (r0 = r) by congruence. subst r0. auto.
+    - rewrite Ek, Eh. intros Hk. destruct (k_link0 Hk) as [A B]. split; auto. intros r0 H0. assert (r0 = r) by congruence. subst r0.
+      rewrite (Hlk Hk). apply B. exact Hm.
+    - rewrite Ec, Eh, Et. exact k_cur0.
+    - rewrite Ep, Eh. exact k_pp0.
+    - rewrite Enx, Eh. intros r0 n Hn. destruct (k_nx0 r0 n Hn) as (A & B & D). split; auto. split; auto.
+      destruct (Nat.eq_dec r0 r) as [->|Hne]; [|destruct (Hx r0 Hne) as (E & _); rewrite E; exact D].
+      destruct (Nat.eq_dec (nxt g' r) (nxt g r)) as [E|E]; [rewrite E; exact D|]. exfalso. exact (Hnx E B).
+    - rewrite Ed, Eh. intros r0 Hd. destruct (k_deact0 r0 Hd) as (A & B & B' & D). split; auto. split; auto. split; [rewrite En; exact B'|].
+      intros t0 Ht0. cbn in Ht0. unfold upd in *. cbn. unfold upd. destruct (Nat.eqb_spec t0 t) as [E|E].
+      + assert (r0 = r) by congruence. subst r0. destruct (Hde Hd) as [E1 E2]. rewrite E1, E2.
+        rewrite <- Hv. apply (D t). rewrite Hv. exact Hm.
+      + destruct (D t0 Ht0) as [D1 D2]. split; auto.
+        destruct (Nat.eq_dec r0 r) as [->|Hne]; [|destruct (Hx r0 Hne) as (_ & E2); rewrite E2; exact D2].
+        destruct (Hde Hd) as [E1 _]. rewrite E1. exact D2.
+    - rewrite Eca, En. intros x Hc. destruct (k_cand0 x Hc) as (A & B). split; [apply Hun; exact A|exact B].
+    - rewrite Evi, En. intros x Hc. destruct (k_vic0 x Hc) as (A & B). split; [apply Hun; exact A|exact B].
+    - rewrite Et, Em. intros v Hc. destruct (k_tgt0 v Hc) as [A|A]; [left; exact A|right; apply Hun; exact A].
+  Qed.
+  Ltac fields_of Hf x := let A := fresh "A" in let B := fresh "B" in let D := fresh "D" in
+    destruct (Hf x) as (A & B & D); rewrite ?A, ?B, ?D; clear A B D.
+
+  (** release_record: the request is known to be answered, so the model event "lost" is not emitted *)
+  Lemma safe_release_b R t r (k : V -> prog R) l Q :
+    w_my l = Some r -> w_done l = true ->
+    (forall v, safe t (k v) (set_done (set_wait l false) false) Q) ->
+    safe t (Act (@a_release C Rs P r) k) l Q.
+  Proof.
+    intros Hm Hd K. cbn [Conc.safe]. intros g a tr Hi Hv. unfold view in Hv. unfold a_release; cbn [fst snd].
+    pose proof Hi as (Hl & HG & HK). pose proof (HK t) as K0. rewrite Hv in K0.
+    pose proof (k_done K0 Hd Hm) as Hrq. unfold rq in Hrq. rewrite Hrq, Nat.eqb_refl, app_nil_r.
+    own_fields g r FReq req_Empty. set (g' := upd_rec g r (set_fld (g_recs g r) FReq req_Empty)) in *.
+    exists (setv a t (set_done (set_wait l false) false)). split; [|split; [apply frame_setv|rewrite view_setv; apply K]].
+    assert (Hxo : forall x, x <> r -> nxt g' x = nxt g x /\ stt g' x = stt g x /\ rq g' x = rq g x).
+    { intros x Hne. fields_of Hf x. destruct (Nat.eqb_spec x r); [congruence|auto]. }
+    assert (Hr : nxt g' r = nxt g r /\ stt g' r = stt g r).
+    { fields_of Hf r. rewrite Nat.eqb_refl. auto. }
+    destruct Hr as [Hr1 Hr2].
+    refine (@own_step g g' a tr t l (set_done (set_wait l false) false) r _ Hi Hv Hm (or_introl _) eq_refl eq_refl eq_refl eq_refl Hxo _ _ _ _ _ _ _ _ _).
+    - exact Hm.
+    - congruence.
+    - apply nolost_acc.
+    - rewrite Hr2. intros Hin. apply (gl_pl HG). exact Hin.
+    - rewrite Hr2. intros Hs. destruct (gl_act HG _ Hs) as [A|[(u & A & B)|(u & A)]]; [auto| |right; right; eauto].
+      assert (u = t) by (apply (gl_inj HG u t A); rewrite Hv; exact Hm). subst u. rewrite Hv in B. right. left. cbn. auto.
+    - rewrite Hr2. intros Hs. exfalso. apply (gl_rem HG Hs t). rewrite Hv. exact Hm.
+    - rewrite Hr2. apply (gl_st HG).
+    - cbn. intros Hp. left. exact Hp.
+    - intros (u' & Hd') _. split; [|exact Hr2]. destruct (k_deact (HK u') Hd') as (_ & _ & _ & D).
+      destruct (D t) as [D1 _]; [rewrite Hv; exact Hm|]. rewrite Hv in D1. exact D1.
+    - intros _. refine (@Know_t_own g g' a t l (set_done (set_wait l false) false) r K0 Hm eq_refl eq_refl eq_refl eq_refl eq_refl eq_refl eq_refl eq_refl eq_refl eq_refl eq_refl _ _ _ _ _ _ _ _ _ Hv); cbn.
+      + intros x Hne. destruct (Hxo x Hne) as (A & B & _). auto.
+      + congruence.
+      + intros _. exact Hr2.
+      + intros _. split; [exact Hr2|reflexivity].
+      + intros Ho. apply (k_unl K0 Ho Hm).
+      + intros Ho. rewrite Hr2. apply (k_pub K0 Ho Hm).
+      + intros p Hp Ho. rewrite Hr1. eapply (k_mynx K0); eauto.
+      + discriminate.
+      + discriminate.
+  Qed.
+  (** publish: pRec->nState.store( active ) on a record known to be unlinked *)
+  Lemma safe_st_active_b R t r (k : V -> prog R) l Q :
+    w_my l = Some r -> w_own l = OUnl ->
+    (forall v, safe t (k v) (set_own l OPub) Q) ->
+    safe t (Act (@a_st C Rs P r FState st_active) k) l Q.
+  Proof.
+    intros Hm Ho K. cbn [Conc.safe]. intros g a tr Hi Hv. unfold view in Hv. unfold a_st; cbn [fst snd].
+    pose proof Hi as (Hl & HG & HK). pose proof (HK t) as K0. rewrite Hv in K0.
+    own_fields g r FState st_active. set (g' := upd_rec g r (set_fld (g_recs g r) FState st_active)) in *.
+    exists (setv a t (set_own l OPub)). split; [|split; [apply frame_setv|rewrite view_setv; apply K]].
+    assert (Hxo : forall x, x <> r -> nxt g' x = nxt g x /\ stt g' x = stt g x /\ rq g' x = rq g x).
+    { intros x Hne. fields_of Hf x. destruct (Nat.eqb_spec x r); [congruence|auto]. }
+    assert (Hr : nxt g' r = nxt g r /\ stt g' r = st_active /\ rq g' r = rq g r).
+    { fields_of Hf r. rewrite Nat.eqb_refl. auto. }
+    destruct Hr as (Hr1 & Hr2 & Hr3).
+    assert (Hnin : ~ In r (s_pl a)) by (apply (k_unl K0); [rewrite Ho; discriminate|exact Hm]).
+    refine (@own_step g g' a tr t l (set_own l OPub) r _ Hi Hv Hm (or_introl _) eq_refl eq_refl eq_refl eq_refl Hxo _ _ _ _ _ _ _ _ _).
+    - exact Hm.
+    - congruence.
+    - apply nolost_acc.
+    - intros Hin. contradiction.
+    - intros _. right. left. cbn. auto.
+    - rewrite Hr2. unfold st_active, st_removed. discriminate.
+    - rewrite Hr2. unfold st_active. lia.
+    - intros _. right. exact Hr2.
+    - intros (u' & Hd') _. exfalso. pose proof (k_deact (HK u') Hd') as (_ & _ & _ & D).
+      destruct (D t) as [D1 _]; [rewrite Hv; exact Hm|]. rewrite Hv in D1. congruence.
+    - intros _. refine (@Know_t_own g g' a t l (set_own l OPub) r K0 Hm eq_refl eq_refl eq_refl eq_refl eq_refl eq_refl eq_refl eq_refl eq_refl eq_refl eq_refl _ _ _ _ _ _ _ _ _ Hv); cbn.
+      + intros x Hne. destruct (Hxo x Hne) as (A & B & _). auto.
+      + congruence.
+      + intros Hk. exfalso. destruct (k_link K0 Hk) as [_ B]. destruct (B r Hm). contradiction.
+      + intros Hd. exfalso. pose proof (k_deact K0 Hd) as (_ & _ & _ & D).
+        destruct (D t) as [D1 _]; [rewrite Hv; exact Hm|]. rewrite Hv in D1. congruence.
+      + intros _. exact Hnin.
+      + intros _. exact Hr2.
+      + intros p Hp _. rewrite Hr1. eapply (k_mynx K0); eauto. rewrite Ho. discriminate.
+      + intros Hw. rewrite Hr3. apply (k_wait K0 Hw Hm).
+      + intros Hw. rewrite Hr3. apply (k_done K0 Hw Hm).
+  Qed.
+
+  (** publish: pRec->pNext.store( p ) on the unlinked record *)
+  Lemma safe_st_next_b R t r p (k : V -> prog R) l Q :
+    w_my l = Some r -> w_own l <> OUnk ->
+    (forall v, safe t (k v) (set_mynx l (Some p)) Q) ->
+    safe t (Act (@a_st C Rs P r FNext p) k) l Q.
+  Proof.
+    intros Hm Ho K. cbn [Conc.safe]. intros g a tr Hi Hv. unfold view in Hv. unfold a_st; cbn [fst snd].
+    pose proof Hi as (Hl & HG & HK). pose proof (HK t) as K0. rewrite Hv in K0.
+    own_fields g r FNext p. set (g' := upd_rec g r (set_fld (g_recs g r) FNext p)) in *.
+    exists (setv a t (set_mynx l (Some p))). split; [|split; [apply frame_setv|rewrite view_setv; apply K]].
+    assert (Hxo : forall x, x <> r -> nxt g' x = nxt g x /\ stt g' x = stt g x /\ rq g' x = rq g x).
+    { intros x Hne. fields_of Hf x. destruct (Nat.eqb_spec x r); [congruence|auto]. }
+    assert (Hr : nxt g' r = p /\ stt g' r = stt g r /\ rq g' r = rq g r).
+    { fields_of Hf r. rewrite Nat.eqb_refl. auto. }
+    destruct Hr as (Hr1 & Hr2 & Hr3).
+    assert (Hnin : ~ In r (s_pl a)) by (apply (k_unl K0); assumption).
+    refine (@own_step g g' a tr t l (set_mynx l (Some p)) r _ Hi Hv Hm (or_introl _) eq_refl eq_refl eq_refl eq_refl Hxo _ _ _ _ _ _ _ _ _).
+    - exact Hm.
+    - intros _. exact Hnin.
+    - apply nolost_acc.
+    - intros Hin. contradiction.
+    - rewrite Hr2. intros Hs. pose proof (gl_act HG) as X. destruct (X r Hs) as [A|[(u & A & B)|(u & A)]]; [auto| |right; right; eauto].
+      assert (u = t) by (apply (gl_inj HG u t A); rewrite Hv; exact Hm). subst u. rewrite Hv in B. right. left. cbn. auto.
+    - rewrite Hr2. intros Hs. exfalso. pose proof (gl_rem HG) as X. apply (X r Hs t). rewrite Hv. exact Hm.
+    - rewrite Hr2. apply (gl_st HG).
+    - cbn. intros Hp. left. exact Hp.
+    - intros (u' & Hd') _. exfalso. pose proof (k_deact (HK u') Hd') as (_ & _ & _ & D).
+      destruct (D t) as [D1 _]; [rewrite Hv; exact Hm|]. rewrite Hv in D1. congruence.
+    - intros _. refine (@Know_t_own g g' a t l (set_mynx l (Some p)) r K0 Hm eq_refl eq_refl eq_refl eq_refl eq_refl eq_refl eq_refl eq_refl eq_refl eq_refl eq_refl _ _ _ _ _ _ _ _ _ Hv); cbn.
+      + intros x Hne. destruct (Hxo x Hne) as (A & B & _). auto.
+      + intros _. exact Hnin.
+      + intros _. exact Hr2.
+      + intros _. split; [exact Hr2|reflexivity].
+      + intros _. exact Hnin.
+      + intros Hp. rewrite Hr2. apply (k_pub K0 Hp Hm).
+      + intros p0 Hp _. congruence.
+      + intros Hw. rewrite Hr3. apply (k_wait K0 Hw Hm).
+      + intros Hw. rewrite Hr3. apply (k_done K0 Hw Hm).
+  Qed.
+  Lemma Inv_trace g a tr t es : Inv g a tr -> nolost es -> Inv g a (tr ++ Conc.tag t es).
+  Proof. intros (Hl & HG & HK) He. apply Inv_intro; auto. apply nolost_tag; assumption. Qed.
+
+  Lemma Inv_view g a tr t es l l' :
+    Inv g a tr -> s_v a t = l -> w_my l' = w_my l -> w_own l' = w_own l -> w_hold l' = w_hold l ->
+    (forall r, w_deact l = Some r -> w_deact l' = Some r) -> Know g a l' -> nolost es ->
+    Inv g (setv a t l') (tr ++ Conc.tag t es).
+  Proof.
+    intros (Hl & HG & HK) Hv Em Eo Eh Ed Hk He. subst l.
+    apply Inv_intro; [apply nolost_tag; assumption| |].
+    - apply Glob_setv; auto.
+    - intros u. apply Know_setv; auto. cbn. unfold upd. destruct (Nat.eqb_spec u t) as [E1|E1]; [exact Hk|apply HK].
+  Qed.
+
+  (** the owner reads nState of its record: `inactive` means "not linked, and only I can link it";
+      `active` read while holding the combiner lock means "linked" *)
+  Lemma safe_ld_state_own_b R t r (k : V -> prog R) l Q :
+    w_my l = Some r -> w_own l = OUnk -> w_deact l = None -> w_mynx l = None ->
+    safe t (k (vN st_active)) (if w_hold l then set_link l true else l) Q ->
+    (forall v, v <> st_active -> safe t (k (vN v)) (set_own l OUnl) Q) ->
+    safe t (Act (@a_ld C Rs P r FState) k) l Q.
+  Proof.
+    intros Hm Ho Hd Hnx K1 K2. cbn [Conc.safe]. intros g a tr Hi Hv. unfold view in Hv. unfold a_ld; cbn [fst snd get_fld].
+    pose proof Hi as (Hl & HG & HK). pose proof (HK t) as K0. rewrite Hv in K0.
+    assert (Hm0 : w_my (s_v a t) = Some r) by (rewrite Hv; exact Hm).
+    fold (stt g r). destruct (Nat.eq_dec (stt g r) st_active) as [Ea|Ea].
+    - rewrite Ea. destruct (w_hold l) eqn:Eh.
+      + exists (setv a t (set_link l true)). split; [|split; [apply frame_setv|rewrite view_setv; exact K1]].
+        eapply Inv_view; eauto; [|apply nolost_acc].
+        destruct K0. split; cbn; auto. intros _. split; [exact Eh|]. intros r0 H0. assert (r0 = r) by congruence. subst r0.
+        split; [|exact Ea]. pose proof (gl_act HG) as X. destruct (X r Ea) as [A|[(u & A & B)|(u & A)]]; [exact A| |].
+        * exfalso. assert (u = t) by (apply (gl_inj HG u t A); exact Hm0). subst u. rewrite Hv in B. congruence.
+        * exfalso. pose proof (k_deact (HK u) A) as (Hh & _). assert (u = t).
+          { apply (gl_uniq HG u t Hh). pose proof (f_equal w_hold Hv) as Hx. cbn in Hx. congruence. }
+          subst u. rewrite Hv in A. congruence.
+      + exists a. split; [|split; [apply frame_refl|unfold view; rewrite Hv; exact K1]]. apply Inv_trace; [exact Hi|apply nolost_acc].
+    - exists (setv a t (set_own l OUnl)). split; [|split; [apply frame_setv|rewrite view_setv; apply K2; exact Ea]].
+      assert (Hnin : ~ In r (s_pl a)).
+      { intros Hin. destruct (gl_pl HG _ Hin) as [_ Hs]. pose proof (gl_st HG r) as H2.
+        assert (stt g r = st_removed) by (unfold st_active, st_inactive, st_removed in *; lia).
+        pose proof (gl_rem HG) as X. apply (X r H t). exact Hm0. }
+      refine (@own_step g g a tr t l (set_own l OUnl) r _ Hi Hv Hm (or_introl _) eq_refl eq_refl eq_refl eq_refl _ _ _ _ _ _ _ _ _ _).
+      + exact Hm.
+      + intros; auto.
+      + congruence.
+      + apply nolost_acc.
+      + intros Hin. contradiction.
+      + intros Hs. contradiction.
+      + intros Hs. exfalso. pose proof (gl_rem HG) as X. apply (X r Hs t). exact Hm0.
+      + apply (gl_st HG).
+      + cbn. discriminate.
+      + intros (u' & Hd') _. exfalso. pose proof (k_deact (HK u') Hd') as (_ & _ & _ & D).
+        destruct (D t Hm0) as [_ D2]. contradiction.
+      + intros _.
+        refine (@Know_t_own g g a t l (set_own l OUnl) r K0 Hm eq_refl eq_refl eq_refl eq_refl eq_refl eq_refl eq_refl eq_refl eq_refl eq_refl eq_refl _ _ _ _ _ _ _ _ _ Hv); cbn.
+        * intros; auto.
+        * congruence.
+        * auto.
+        * rewrite Hd. discriminate.
+        * intros _. exact Hnin.
+        * discriminate.
+        * rewrite Hnx. discriminate.
+        * intros Hw. apply (k_wait K0 Hw Hm).
+        * intros Hw. apply (k_done K0 Hw Hm).
+  Qed.
+(* ==DEV== *)
+  (** *** the link CAS: m_pHead->pNext.compare_exchange( p, pRec ) *)
+  Lemma in_LL_insert a r q : In q (LL a) -> In q (head :: r :: s_pl a).
+  Proof. intros [E|H]; [left; exact E|right; right; exact H]. Qed.
+
+  Lemma Know_link_step g g' a t r l' u :
+    Glob g a -> (forall v, Know g a (s_v a v)) -> u <> t ->
+    w_my (s_v a t) = Some r -> w_own (s_v a t) = OPub -> w_my l' = Some r ->
+    g_nrec g' = g_nrec g ->
+    (forall x, stt g' x = stt g x /\ rq g' x = rq g x /\ (x <> head -> nxt g' x = nxt g x)) ->
+    Know g' (setv (setpl a (r :: s_pl a)) t l') (s_v a u).
+  Proof.
+    intros HG HK Hne Hm Ho Hm' En Hx. pose proof (HK u) as K. destruct K.
+    destruct (k_my (HK t) Hm) as [Hr1 Hr2]. pose proof (k_unl (HK t)) as Hnin. rewrite Ho in Hnin.
+    specialize (Hnin ltac:(discriminate) r Hm).
+    assert (Hr0 : forall r0, w_my (s_v a u) = Some r0 -> r0 <> r).
+    { intros r0 H0 ->. apply Hne. eapply (gl_inj HG); eauto. }
+    assert (Hun : forall x, unowned a x <-> unowned (setv (setpl a (r :: s_pl a)) t l') x).
+    { intros x. unfold unowned; cbn. split; intros H v; specialize (H v); unfold upd in *;
+        (destruct (Nat.eqb_spec v t) as [E|E]; [rewrite E in *|]); congruence. }
+    assert (Hpl : forall x, In x (s_pl a) -> x <> head /\ x <> r).
+    { intros x Hin. split; [|intros ->; contradiction]. intros ->. pose proof (gl_nodup HG) as Hnd.
+      unfold LL in Hnd. apply NoDup_cons_iff in Hnd. destruct Hnd as [Hh _]. contradiction. }
+    split; cbn [s_pl setv setpl LL].
+    - intros r0 H0. rewrite En. auto.
+    - intros Hou r0 H0 [E|Hin]; [apply (Hr0 r0 H0); congruence|eapply k_unl0; eauto].
+    - intros Hou r0 H0. destruct (Hx r0) as (E & _). rewrite E. auto.
+    - intros p Hp Hou r0 H0. destruct (Hx r0) as (_ & _ & E). rewrite E; [eauto|]. destruct (k_my0 r0 H0). unfold head. lia.
+    - intros Hw r0 H0. destruct (Hx r0) as (_ & E & _). rewrite E. auto.
+    - intros Hw r0 H0. destruct (Hx r0) as (_ & E & _). rewrite E. auto.
+    - intros Hk. destruct (k_link0 Hk) as [A B]. split; auto. intros r0 H0. destruct (B r0 H0) as [B1 B2].
+      destruct (Hx r0) as (E & _). rewrite E. split; [right; exact B1|exact B2].
+    - intros q Hq. destruct (k_cur0 q Hq) as (A & B & D). split; auto. split; [apply in_LL_insert; exact B|].
+      intros v Hv [E|Hin].
+      + exfalso. subst v. destruct (k_tgt0 r Hv) as [F|F]; [apply (Hr0 r F); reflexivity|apply (F t); exact Hm].
+      + specialize (D v Hv Hin). destruct B as [E|B].
+        * subst q. cbn. rewrite Nat.eqb_refl. right. right. exact Hin.
+        * destruct (Hpl q B) as [Q1 Q2]. rewrite sf_insert by assumption. exact D.
+    - intros x Hxp. destruct (k_pp0 x Hxp) as (A & B). split; auto. apply in_LL_insert; exact B.
+    - intros r0 n Hn. destruct (k_nx0 r0 n Hn) as (A & B & D). split; auto. split; [right; exact B|].
+      destruct (Hx r0) as (_ & _ & E). rewrite E; [exact D|]. apply (Hpl r0 B).
+    - intros r0 Hd. destruct (k_deact0 r0 Hd) as (A & B & B' & D). split; auto.
+      assert (r0 <> r). { intros ->. destruct (D t Hm) as [D1 _]. congruence. }
+      split; [intros [E|Hin]; [congruence|contradiction]|]. split; [rewrite En; exact B'|].
+      intros t0 Ht0. cbn in Ht0. unfold upd in *. cbn. unfold upd. destruct (Nat.eqb_spec t0 t) as [E|E]; [congruence|].
+      destruct (D t0 Ht0) as [D1 D2]. destruct (Hx r0) as (E2 & _). rewrite E2. auto.
+    - intros x Hc. destruct (k_cand0 x Hc) as (A & B). rewrite En. split; [apply Hun; exact A|exact B].
+    - intros x Hc. destruct (k_vic0 x Hc) as (A & B & D & E). rewrite En. split; [apply Hun; exact A|]. split; auto. split; auto.
+      intros [F|Hin]; [|contradiction]. subst x. apply (A t). exact Hm.
+    - intros v Hc. destruct (k_tgt0 v Hc) as [A|A]; [left; exact A|right; apply Hun; exact A].
   Qed.
 End Shape.
